@@ -652,6 +652,24 @@ func parallelMadeIndex(fb *FuncBody, n ast.Node) string {
 			}
 			return "`" + exprStr(ix.X) + "` is made with len(" + exprStr(r.X) + ") and the index is the key of the loop over " + exprStr(r.X)
 		}
+		if _, isSel := ast.Unparen(r.X).(*ast.SelectorExpr); isSel && rootVar(info, r.X) != nil {
+			// a field path (`err.MissingVars`): nothing at all happens between the make and the loop — no assignment, no call
+			// that could reach the field — so the header the loop copies is the one whose length was taken
+			quiet := true
+			inspectDeep(root.Body, func(m ast.Node) bool {
+				if m == nil || m.Pos() <= mk.End() || m.Pos() >= r.Pos() {
+					return true
+				}
+				switch m.(type) {
+				case *ast.AssignStmt, *ast.CallExpr, *ast.IncDecStmt, *ast.GoStmt, *ast.SendStmt:
+					quiet = false
+				}
+				return true
+			})
+			if quiet {
+				return "`" + exprStr(ix.X) + "` is made with len(" + exprStr(r.X) + ") immediately before the loop over " + exprStr(r.X) + " whose key is the index"
+			}
+		}
 		return ""
 	}
 	return ""
